@@ -4,7 +4,7 @@ From Coq Require Import ZArith QArith Qabs Qcanon List Bool Arith.
 From PV.Base Require Import Sums.
 From PV.Model Require Import Coupling.
 From PV.Gen Require Import CouplingK.
-From PV.Proofs Require Import Coupling CouplingGen.
+From PV.Proofs Require Import Coupling CouplingGen CauchySchwarz.
 Import ListNotations.
 Open Scope Q_scope.
 
@@ -84,3 +84,13 @@ Theorem C10_covariance_sign n a b c d x y : (0 < n)%nat ->
   cov n (fun k => a * x k + b)%Qc (fun k => c * y k + d)%Qc = (a * c * cov n x y)%Qc.
 Proof. exact (cov_affine_sign n a b c d x y). Qed.
 Print Assumptions C10_covariance_sign.
+
+(* bounded: the squared covariance never exceeds the product of the variances
+   (|r| <= 1 in square-root-free form), for every pair of series of any length *)
+Theorem C10_pearson_bounded n x y : (cov n x y * cov n x y <= cov n x x * cov n y y)%Qc.
+Proof. exact (cov_sq_le n x y). Qed.
+Print Assumptions C10_pearson_bounded.
+
+Theorem C10_variance_nonneg n x : (0 <= cov n x x)%Qc.
+Proof. exact (cov_self_nonneg n x). Qed.
+Print Assumptions C10_variance_nonneg.
